@@ -197,6 +197,8 @@ def h(
     axis_names: Optional[Iterable[str]] = None,
     dim: Optional[int] = None,
     weights: Optional[ArrayLike] = None,
+    dtype: Optional[DTypeLike] = None,
+    keep_missed: bool = True,
     **kwargs,
 ) -> HistogramND:
     """Facade function to create n-dimensional histograms.
@@ -248,6 +250,8 @@ def h(
         array,
         binnings=bin_schemas,
         weights=weights,
+        dtype=dtype,
+        keep_missed=keep_missed,
         axis_names=axis_names,
         name=name,
         title=title,
